@@ -331,7 +331,7 @@ func (fr *Frame) execCall(ins ssa.CallInstruction, cc *ssa.CallCommon) []Term {
 	}
 	ord := fr.callOrdinal(ci.key)
 	fr.callSpecAsserts(ci, ord, args, argTypes)
-	fr.ghostAtCall(ci, ord, "before", args)
+	fr.ghostAtCallT(ci, "before", args, argTypes)
 	var res []Term
 	switch {
 	case ci.fc != nil && !ci.fc.Inline:
@@ -349,7 +349,7 @@ func (fr *Frame) execCall(ins ssa.CallInstruction, cc *ssa.CallCommon) []Term {
 		c.havoc(fr.st, m, "unmodelled call "+shortKey(ci.key))
 		res = fr.freshResults(ci.sig.Results(), "r_"+lastSeg(ci.key))
 	}
-	fr.ghostAtCallAfter(ci, ord, args, res)
+	fr.ghostAtCallAfterT(ci, args, res, argTypes, ci.sig.Results())
 	fr.callSpecAssumes(ci)
 	return res
 }
@@ -742,6 +742,10 @@ func (fr *Frame) selectHook(x *ssa.Select, idx Term) {}
 // ---- ghost-at anchors and call-site assertions ----------------------------------------------
 
 func (fr *Frame) ghostAtCall(ci *calleeInfo, ord int, when string, args []Term) {
+	fr.ghostAtCallT(ci, when, args, nil)
+}
+
+func (fr *Frame) ghostAtCallT(ci *calleeInfo, when string, args []Term, argTypes []types.Type) {
 	top := fr.topFrame()
 	if top.fc == nil {
 		return
@@ -755,7 +759,11 @@ func (fr *Frame) ghostAtCall(ci *calleeInfo, ord int, when string, args []Term) 
 		}
 		env := fr.anchorEnv()
 		for i, a := range args {
-			env.vars[fmt.Sprintf("arg%d", i)] = Binding{a, nil}
+			var ty types.Type
+			if i < len(argTypes) {
+				ty = argTypes[i]
+			}
+			env.vars[fmt.Sprintf("arg%d", i)] = Binding{a, ty}
 		}
 		v := env.eval(g.E)
 		fr.c.setGhost(fr.st, g.Var, v.T)
@@ -765,6 +773,10 @@ func (fr *Frame) ghostAtCall(ci *calleeInfo, ord int, when string, args []Term) 
 }
 
 func (fr *Frame) ghostAtCallAfter(ci *calleeInfo, ord int, args []Term, res []Term) {
+	fr.ghostAtCallAfterT(ci, args, res, nil, nil)
+}
+
+func (fr *Frame) ghostAtCallAfterT(ci *calleeInfo, args []Term, res []Term, argTypes []types.Type, resTypes *types.Tuple) {
 	top := fr.topFrame()
 	if top.fc == nil {
 		return
@@ -778,10 +790,18 @@ func (fr *Frame) ghostAtCallAfter(ci *calleeInfo, ord int, args []Term, res []Te
 		}
 		env := fr.anchorEnv()
 		for i, a := range args {
-			env.vars[fmt.Sprintf("arg%d", i)] = Binding{a, nil}
+			var ty types.Type
+			if i < len(argTypes) {
+				ty = argTypes[i]
+			}
+			env.vars[fmt.Sprintf("arg%d", i)] = Binding{a, ty}
 		}
 		for i, r := range res {
-			env.vars[fmt.Sprintf("res%d", i)] = Binding{r, nil}
+			var ty types.Type
+			if resTypes != nil && i < resTypes.Len() {
+				ty = resTypes.At(i).Type()
+			}
+			env.vars[fmt.Sprintf("res%d", i)] = Binding{r, ty}
 		}
 		v := env.eval(g.E)
 		fr.c.setGhost(fr.st, g.Var, v.T)
